@@ -265,13 +265,15 @@ def c21_channel(s: SCtx, I) -> None:
         if node.id in replay:
             c = call_in(node.ast, "self.setLineMode")
             try:
-                val = I.ev(c.args[0], e)
+                val = I.ev(c.args[0], e) if c.args else (I.ev(c.keywords[0].value, e) if c.keywords else b"")
             except Exception:
                 val = Unknown
             seen.append((val, e.get("self._dataBuffer", Unknown), e.get("self._handlingRequest", Unknown)))
     base = {rp: A, "self.requests[0]": A, "self.requests": [A], "self._dataBuffer": [b"ab", b"", b"cd"], "self._handlingRequest": True, "self._waitingForTransport": False,
             "self._savedTimeOut": None}
     vis_p = walk(g, I, make_env(dict(base, **{"self.persistent": 1})), on_node=on)
+    # the same with the transport having asked the channel to pause: the channel still becomes ready to parse, so nothing may stay held back
+    walk(g, I, make_env(dict(base, **{"self.persistent": 1, "self._waitingForTransport": True})), on_node=on)
     vis_n = walk(g, I, make_env(dict(base, **{"self.persistent": 0})))
     s.check(_hit(vis_p, replay) and not _hit(vis_p, lose), "valuation/persistent-replays", QC + "requestDone | persistent",
             "on a persistent connection the finished request does not replay the buffered bytes / closes the connection")
@@ -281,7 +283,7 @@ def c21_channel(s: SCtx, I) -> None:
         raise Abstain("replay argument / buffer state not determined by partial evaluation")
     for val, bufnow, flag in seen:
         s.check(val == b"abcd", "valuation/replay-buffered-bytes", QC + "requestDone | replayed value",
-                f"with [b'ab', b'', b'cd'] buffered the replayed value is {val!r}: pipelined requests are lost or reordered")
+                f"with [b'ab', b'', b'cd'] buffered the channel goes back to parsing with {val!r} (for some value of _waitingForTransport): bytes held back in the pipelining buffer are lost or overtaken by later input")
         s.check(list(bufnow) == [], "valuation/buffer-detached-before-replay", QC + "requestDone | buffer at replay",
                 f"when the replay starts the buffer still holds {bufnow!r}: a request finishing inside the replay replays the same bytes again")
         s.check(flag is False, "valuation/flag-cleared-before-replay", QC + "requestDone | flag at replay",
